@@ -13,10 +13,80 @@ verus! {
 //@use core.rs
 //@use arrow_imm.rs
 //@use arrow_conv.rs
+//@use error.rs
+//@use offsets.rs
+//@use vec_iter.rs
 //@use write.rs
 //@use version.rs
 type Result<T> = std::result::Result<T, IoError>;
 broadcast use PrimitiveArray::axiom_values_spec;
+'''
+
+
+# the hand-written conversions of the per-character and per-port containers (the finished game's columns ARE the parsed columns)
+HAND_FROM = '''
+//@struct src/frame/immutable/mod.rs Data
+//@struct src/frame/immutable/mod.rs PortData
+impl From<mutable::Data> for Data {
+//@fn src/frame/immutable/mod.rs | impl From<mutable::Data> for Data | from | ret=res | stub
+//@end
+}
+//@fn src/frame/immutable/mod.rs | impl From<mutable::Data> for Data | from | ret=res | free=Data | twin=__Data
+	ensures res == <Data as vstd::std_specs::convert::FromSpec<mutable::Data>>::from_spec(d) /*[C12.finished_columns_are_the_parsed_columns.Data]*/,
+//@end
+impl vstd::std_specs::convert::FromSpecImpl<mutable::Data> for Data {
+	open spec fn obeys_from_spec() -> bool { true }
+	open spec fn from_spec(m: mutable::Data) -> Data {
+		Data {
+			pre: <Pre as vstd::std_specs::convert::FromSpec<mutable::Pre>>::from_spec(m.pre),
+			post: <Post as vstd::std_specs::convert::FromSpec<mutable::Post>>::from_spec(m.post),
+			validity: match m.validity { Some(c) => Some(<Bitmap as vstd::std_specs::convert::FromSpec<MutableBitmap>>::from_spec(c)), None => None },
+		}
+	}
+}
+impl From<mutable::PortData> for PortData {
+//@fn src/frame/immutable/mod.rs | impl From<mutable::PortData> for PortData | from | ret=res | stub
+//@end
+}
+//@fn src/frame/immutable/mod.rs | impl From<mutable::PortData> for PortData | from | ret=res | free=PortData | twin=__PortData
+	ensures res == <PortData as vstd::std_specs::convert::FromSpec<mutable::PortData>>::from_spec(p) /*[C12.finished_columns_are_the_parsed_columns.PortData]*/,
+//@end
+impl vstd::std_specs::convert::FromSpecImpl<mutable::PortData> for PortData {
+	open spec fn obeys_from_spec() -> bool { true }
+	open spec fn from_spec(m: mutable::PortData) -> PortData {
+		PortData {
+			port: m.port,
+			leader: <Data as vstd::std_specs::convert::FromSpec<mutable::Data>>::from_spec(m.leader),
+			follower: match m.follower { Some(c) => Some(<Data as vstd::std_specs::convert::FromSpec<mutable::Data>>::from_spec(c)), None => None },
+		}
+	}
+}
+
+// arrow2::offset::OffsetsBuffer<i32>: view = the offsets. The conversion `OffsetsBuffer::try_from(Buffer::from(x.into_inner())).unwrap()`
+// keeps them; try_from only rejects non-monotone offsets, which Offsets<i32> (monotone by construction) never holds (assumed, arrow2)
+pub struct OffsetsBuffer<T> { pub v: Vec<T> }
+impl OffsetsBuffer<i32> { pub open spec fn view(&self) -> Seq<i32> { self.v@ } }
+#[verifier::external_body]
+pub fn offsets_into_buffer(x: Offsets<i32>) -> (r: OffsetsBuffer<i32>) ensures r@ == x@ { unimplemented!() }
+//@struct src/frame/immutable/mod.rs Frame
+pub open spec fn ports_converted(a: Seq<mutable::PortData>, b: Seq<PortData>, n: int) -> bool {
+	forall|k: int| 0 <= k < n ==> #[trigger] b[k] == <PortData as vstd::std_specs::convert::FromSpec<mutable::PortData>>::from_spec(a[k])
+}
+//@fn src/frame/immutable/mod.rs | impl From<mutable::Frame> for Frame | from | ret=res | free=Frame | twin=__Frame | rules=R9y,R15,R18,R19,R19p,R3c,R9,R6c,R9b,R1,R2,R3,R3b,R6,R6b,R6bp,R4 | sub=/OffsetsBuffer::try_from(Buffer::from(x.into_inner())).unwrap()/offsets_into_buffer(x)/
+	ensures
+		res.id == <PrimitiveArray<i32> as vstd::std_specs::convert::FromSpec<MutablePrimitiveArray<i32>>>::from_spec(f.id) /*[C12.finished_columns_are_the_parsed_columns.id]*/,
+		res.ports@.len() == f.ports@.len() && ports_converted(f.ports@, res.ports@, f.ports@.len() as int) /*[C12.finished_columns_are_the_parsed_columns.ports]*/,
+		res.start == (match f.start { Some(c) => Some(<Start as vstd::std_specs::convert::FromSpec<mutable::Start>>::from_spec(c)), None => None }) /*[C12.finished_columns_are_the_parsed_columns.start]*/,
+		res.end == (match f.end { Some(c) => Some(<End as vstd::std_specs::convert::FromSpec<mutable::End>>::from_spec(c)), None => None }) /*[C12.finished_columns_are_the_parsed_columns.end]*/,
+		res.item == (match f.item { Some(c) => Some(<Item as vstd::std_specs::convert::FromSpec<mutable::Item>>::from_spec(c)), None => None }) /*[C12.finished_columns_are_the_parsed_columns.item]*/,
+		(res.item_offset is Some) == (f.item_offset is Some) && (f.item_offset is Some ==> res.item_offset->Some_0@ == f.item_offset->Some_0@) /*[C12.finished_columns_are_the_parsed_columns.item_offset]*/,
+//@before Frame {
+	let ghost ports0 = f.ports@;
+//@loop 1
+		invariant out__@.len() + it__.rem@.len() == ports0.len(), it__.rem@ == ports0.subrange(out__@.len() as int, ports0.len() as int),
+			ports_converted(ports0, out__@, out__@.len() as int), !more__ ==> it__.rem@.len() == 0,
+		decreases it__.rem@.len() + (if more__ { 1int } else { 0int }),
+//@end
 '''
 
 
@@ -28,8 +98,9 @@ def template(repo):
     for s in gen_codec.ORDER:
         out.append('//@struct %s %s' % (TREL, s))
     out.append('}')
+    out.append('pub mod game {\nuse super::*;\n//@enum src/game/mod.rs Port\n}\nuse game::Port;')
     out.append('pub mod mutable {\nuse super::*;')
-    for s in gen_codec.ORDER:
+    for s in gen_codec.ORDER + ['Data', 'PortData', 'Frame']:
         out.append('//@struct %s %s' % (REL_MUT, s))
     out.append('}')
     for s in gen_codec.ORDER:
@@ -37,5 +108,6 @@ def template(repo):
         out.append(gen_codec.immutable_specs(L, s))
         out.append(gen_codec.immutable_fn_contracts(L, s, REL, REL_S))
         out.append(gen_codec.immutable_roundtrip_lemmas(L, s))
+    out.append(HAND_FROM)
     out.append('} // verus!\nfn main() {}')
     return '\n'.join(out)
